@@ -79,7 +79,8 @@ def targets(tier):
                             continue
                         dsets = [{}]
                         if derivs_ok:
-                            dsets += [{'t': {'denom': []}}, {'t': {'denom': [2]}, 'x': {'denom': []}}]
+                            dsets += [{'t': {'denom': []}}, {'t': {'denom': [2]}, 'x': {'denom': []}},
+                                      {'t': {'denom': [], 'ro': True}}]
                         for derivs in dsets:
                             for mask in ('F', 'A', 'T'):
                                 if mask == 'A' and not shape:
@@ -222,7 +223,8 @@ def inject(case, fault, rng):
             c['index'] = [0]
         else:
             c['index'] = rng.choice([[['f']], [0] * (len(t['shape']) + 1), ['e', 'e'], [['bad']],
-                                     [['b', [True] * (t['shape'][0] + 1)]]])
+                                     [['b', [True] * (t['shape'][0] + 1)]]]
+                                    + [[['inner', k]] for k in ('rag', 'nonel', 'strl', 'objarr', 'nest', 'strarr')])
         return c
     if a is None:
         return None
@@ -232,8 +234,8 @@ def inject(case, fault, rng):
                 return None
             a['items'][-1][1] = {'t': 'bad', 'what': rng.choice(['str', 'none', 'object'])}
             return c
-        # (set_units resolves strings as unit NAMES; an unknown name is outside what the property speaks about)
-        c['arg'] = {'t': 'bad', 'what': rng.choice(['dict', 'object', 'none', 'complex'] + ([] if mut == 'set_units' else ['str']))}
+        # ('str' for set_units is an unknown unit NAME)
+        c['arg'] = {'t': 'bad', 'what': rng.choice(['dict', 'object', 'none', 'complex', 'str'])}
         return c
     if mut == 'set_units':
         if fault == 'units' and a['t'] == 'units' and t.get('units') is not None:
@@ -336,6 +338,12 @@ def gen(rng, tier):
         for t in tg:
             if t['cls'] in ('Scalar', 'Boolean') and not t['shape'] and not t['denom'] and t['mask'] == 'F' \
                     and len(t['derivs']) <= 1 and t not in mine:
+                mine.append(t)
+        # trouble spot, always present: a read-only derivative inside a writable object (must be detected before
+        # the values are written by *=, /= with a number and by item assignment)
+        for t in tg:
+            if any(d.get('ro') for d in t['derivs'].values()) and t['cls'] in ('Scalar', 'Vector3', 'Matrix') \
+                    and t['mask'] == 'F' and not t['denom'] and t['shape'] in ([3], []) and t not in mine:
                 mine.append(t)
         for t in mine:
             if mut in LOGIC and t['cls'] not in ('Boolean', 'Scalar') and rng.random() < 0.7:
